@@ -479,8 +479,9 @@ def run_case(cfg):
     if o1.warned:
         return {"viol": [], "obs": {"bck": "warned"}, "status": "bck-warned"}
     g1 = list(o1.value)
+    # (the reference does not depend on M when E is absent: M is documented to be ignored then)
     g1ref = list(torch.autograd.grad(lref, req, create_graph=create, retain_graph=(create or cfg["reuse"]),
-                                     allow_unused=True))
+                                     allow_unused=True)) if lref.requires_grad else [None] * len(req)
     scale1 = max([1.0] + [r.detach().abs().max().item() for r in g1ref if r is not None and r.numel()])
     worst1 = 0.0
     for nm, lf, a, r in zip(req_names, req, g1, g1ref):
